@@ -103,10 +103,13 @@ def get_field_reader(
 
     match field_class:
         case PrimitiveField():
+            # A tagged field is usually omitted when null, but a peer may also send it
+            # with an explicit null payload, so nullable fields always use the nullable
+            # reader.
             inner_type_reader = get_reader(
                 kafka_type=get_schema_field_type(field),
                 flexible=flexible,
-                optional=is_optional(field) and not is_tagged_field,
+                optional=is_optional(field),
             )
         case PrimitiveTupleField():
             inner_type_reader = get_reader(
